@@ -258,6 +258,16 @@ def gen_case(rng):
             segs.append(("ref", rng.choice(["plain", "brace"]), rng.choice(["?", "$"])))
     if not any(s[0] == "ref" for s in segs):
         segs.append(("ref", "plain", names[0]))
+    if rng.random() < 0.05:
+        # directed: a value that holds a brace group without a comma, referenced twice in a word that has a literal comma
+        # (the brace pass looks at such a word and has to put every group back exactly as it was)
+        nm = names[0]
+        env[nm] = rng.choice(["${B}", "${A_}z", "{a}", "{}", "x{1}y"])
+        classes[nm] = "dollar-ref" if env[nm].startswith("$") else "braces"
+        f1, f2 = rng.choice(["plain", "brace"]), rng.choice(["plain", "brace"])
+        segs = rng.choice([[("ref", f1, nm), ("lit", ","), ("ref", f2, nm)],
+                           [("lit", "x"), ("ref", f1, nm), ("lit", ","), ("lit", "y"), ("ref", "brace", nm), ("lit", "z")],
+                           [("ref", "brace", nm), ("lit", ","), ("ref", "plain", "NOPE"), ("lit", ","), ("ref", f2, nm)]])
     before, after = [], []
     if rng.random() < 0.35:
         before = [rng.randrange(len(NEIGHBOURS)) for _ in range(rng.randint(1, 2))]
